@@ -40,3 +40,15 @@ Example C10_example :
   | _ => False
   end.
 Proof. vm_compute. repeat split; reflexivity. Qed.
+
+(* the heap model of core.add_outgrads IS the decision table the translator reads off /repo's source on this run
+   (coq/gen/GenEngine.v): which branches write in place, which allocate, which alias *)
+From AG Require Import EngineTie.
+From AGGen Require Import GenEngine.
+Theorem C10_heap_model_follows_source :
+  forall (K : Type) (k0 : K) (kadd : K -> K -> K) n prev c h,
+    Heap.add_outgrads_h K k0 kadd n prev c h
+    = let '(a, fl) := gen_add_outgrads (has_prev prev) (is_mutable prev) (is_hsparse c) in
+      run_action_h K k0 kadd a fl n prev c h.
+Proof. exact add_outgrads_heap_follows_source. Qed.
+Print Assumptions C10_heap_model_follows_source.
